@@ -50,10 +50,10 @@ func (g *genState) pre() string {
 
 // pool draws the two-providers-in-turn scenario for an InjectTo.
 func (g *genState) pool() string {
-	if !rare(g.rt, 14, "pool") {
+	if !rare(g.rt, 18, "pool") {
 		return ""
 	}
-	return []string{"before", "after"}[hx.Uniform(g.rt, 2, "poolkind")]
+	return []string{"before", "after", "foreign"}[hx.Uniform(g.rt, 3, "poolkind")]
 }
 
 func (g *genState) anyDef() *DefOp {
